@@ -110,8 +110,11 @@ def State.setNode (s : State) (tb : Nat) (nd : Node) : State := { s with nodes :
 /-- unsigned reading of a control byte, as VRT prints it -/
 def ctlNat (c : Ctl) : Nat := (c % 256).toNat
 
-def ctlName (nd : Node) (tb : Nat) : String := if nd.tab.dummy then "dummy" else s!"ctl{tb}"
-def nextName (tb : Nat) : String := s!"next{tb}"
+/-- trace names: tables are known by their position in the chain (0 = head) -/
+def ctlName (nd : Node) (pos : Nat) : String := if nd.tab.dummy then "dummy" else s!"ctl{pos}"
+def nextName (pos : Nat) : String := s!"next{pos}"
+/-- position of node `tb` in the chain -/
+def State.posOf (s : State) (tb : Nat) : Nat := s.chain.idxOf tb
 
 abbrev Label := Act
 
@@ -157,7 +160,7 @@ def stepThread (hash : Nat → Nat) (s : State) (t : Nat) : Option (State × Lab
     let c := nd.tab.ctl off
     let f' := { f with w := f.w ++ [c] }
     let p := if f'.w.length < groupLoads then .load f' else afterLoad hash f'
-    some (setPc s t p, .ld (ctlName nd f.tb) off ordGroupLoad (ctlNat c))
+    some (setPc s t p, .ld (ctlName nd (s.posOf f.tb)) off ordGroupLoad (ctlNat c))
   | .cmp _ [] => none
   | .cmp f (j :: ms) =>
     let nd := s.node f.tb
@@ -170,7 +173,7 @@ def stepThread (hash : Nat → Nat) (s : State) (t : Nat) : Option (State × Lab
   | .cas f i =>
     let nd := s.node f.tb
     let c := nd.tab.ctl i
-    let lab := fun ok => Act.cas (ctlName nd f.tb) i false ordCasSucc ordCasFail (ctlNat casExpected)
+    let lab := fun ok => Act.cas (ctlName nd (s.posOf f.tb)) i false ordCasSucc ordCasFail (ctlNat casExpected)
       (ctlNat casDesired) ok (ctlNat c)
     if c == casExpected then
       let nd' := { nd with tab := { nd.tab with ctrl := nd.tab.ctrl.set i casDesired },
@@ -188,13 +191,13 @@ def stepThread (hash : Nat → Nat) (s : State) (t : Nat) : Option (State × Lab
     let nd := s.node f.tb
     let tag := tagOf (hash f.e.1)
     let nd' := { nd with tab := { nd.tab with ctrl := nd.tab.ctrl.set i tag } }
-    some (setPc (s.setNode f.tb nd') t (.st2 f i), .st (ctlName nd f.tb) i ordStoreMain (ctlNat tag))
+    some (setPc (s.setNode f.tb nd') t (.st2 f i), .st (ctlName nd (s.posOf f.tb)) i ordStoreMain (ctlNat tag))
   | .st2 f i =>
     let nd := s.node f.tb
     let tag := tagOf (hash f.e.1)
     let ci := nd.tab.clonedIndex i
     let nd' := { nd with tab := { nd.tab with ctrl := nd.tab.ctrl.set ci tag } }
-    some (setPc (s.setNode f.tb nd') t (.sz f i), .st (ctlName nd f.tb) ci ordStoreMirror (ctlNat tag))
+    some (setPc (s.setNode f.tb nd') t (.sz f i), .st (ctlName nd (s.posOf f.tb)) ci ordStoreMirror (ctlNat tag))
   | .sz f i =>
     let nd := s.node f.tb
     let nd' := { nd with tab := { nd.tab with size := nd.tab.size + 1 } }
@@ -203,23 +206,26 @@ def stepThread (hash : Nat → Nat) (s : State) (t : Nat) : Option (State × Lab
     let nd := s.node f.tb
     let o := if f.kind.isFind then (if f.tb = 0 then ordSetFindHeadLoad else ordSetFindNextLoad)
              else ordSetEmplaceNextLoad
+    -- a non-null pointer in the `next` field of the node at position `p` is traced as `p + 1`
+    let p := s.posOf f.tb
     match nd.next with
-    | some nx => some (setPc s t (enter hash s f nx), .ld (nextName f.tb) 0 o nx)
+    | some nx => some (setPc s t (enter hash s f nx), .ld (nextName p) 0 o (p + 1))
     | none =>
-      if f.kind.isFind then some (setPc s t (.ret f .none), .ld (nextName f.tb) 0 o 0)
+      if f.kind.isFind then some (setPc s t (.ret f .none), .ld (nextName p) 0 o 0)
       else
         -- `new TableNode {node->table.bucket_count() << 1}` (thread-private until the CAS)
         let nw := s.nodes.length
         let s' := { s with nodes := s.nodes ++ [Node.ofTable (Table.mk' (f.n * 2 ^ growShift))] }
-        some (setPc s' t (.nextCas f nw), .ld (nextName f.tb) 0 o 0)
+        some (setPc s' t (.nextCas f nw), .ld (nextName p) 0 o 0)
   | .nextCas f nw =>
     let nd := s.node f.tb
-    let lab := fun ok obs => Act.cas (nextName f.tb) 0 false ordSetCasSucc ordSetCasFail 0 nw ok obs
+    let p := s.posOf f.tb
+    let lab := fun ok obs => Act.cas (nextName p) 0 false ordSetCasSucc ordSetCasFail 0 (p + 1) ok obs
     match nd.next with
     | none =>
       let s' := { s.setNode f.tb { nd with next := some nw } with chain := s.chain ++ [nw] }
       some (setPc s' t (enter hash s' f nw), lab true 0)
-    | some nx => some (setPc s t (enter hash s f nx), lab false nx)   -- `delete new_node`
+    | some nx => some (setPc s t (enter hash s f nx), lab false (p + 1))   -- `delete new_node`
 
 /-- ghost: the slot returned by the first call in the history that returned an element with key `key` -/
 def doneOf (log : List Event) (key : Nat) : Option (Nat × Nat) :=
